@@ -35,6 +35,19 @@ def accHunk (parent : Path) (start : Nat) (prev : Json) (R A : List Json) (after
   if R.isEmpty && A.isEmpty then []
   else [{ path := parent ++ [.idx start], before := [prev], remove := R, add := A, after := [after] }]
 
+/-- the end block of `diffRest` when nothing was accumulated and the sub-diff took the place of the
+    temporary hunk (`d = subDiff`): "if len(d[0].Path) > len(path) { this is a subdiff, don't touch it } else
+    if len(d) < 2 { d[0].After = after() }" — a sub-diff that is ONE hunk at the element's own path (a
+    wholesale replacement, which only happens between a typed `jsonList` and a plain `jsonArray`) is
+    taken for the accumulated hunk and receives the after-context -/
+def subAfter (parent : Path) (noAcc : Bool) (next : Json) (sub : Diff) : Diff :=
+  match sub with
+  | [h] =>
+    if noAcc && (!h.remove.isEmpty || !h.add.isEmpty) && h.path.length ≤ parent.length + 1 then
+      [{ h with after := [next] }]
+    else sub
+  | _ => sub
+
 /-- one part of a set diff, produced per distinct identity of the first set -/
 inductive SetPart where
   | removed (x : Json)
@@ -188,7 +201,7 @@ def diffRest (o : Opts) (parent : Path) (k start : Nat) (prev : Json)
     else if sameContainerType o x y then
       let sub := diffNode o false x y (parent ++ [.idx k])
       let after := if sub.isEmpty then a'.headD .void else x
-      accHunk parent start prev R A after ++ sub ++
+      accHunk parent start prev R A after ++ subAfter parent (R.isEmpty && A.isEmpty) (a'.headD .void) sub ++
         (if a'.isEmpty && b'.isEmpty then []
          else diffRest o parent (k + 1) (k + 1) y a' b' c [] [])
     else diffRest o parent (k + 1) start prev a' b' c (R ++ [x]) (A ++ [y])
